@@ -145,8 +145,11 @@ func main() {
 	}
 	extraEnv := []string{}
 	if *prop == "C20" {
-		for _, v := range []string{"v1.5.0", "v2.0.0"} {
+		for _, v := range []string{"v1.5.0", "v2.0.0", ""} {
 			out := filepath.Join(scratch, "crs-toolchain-"+v)
+			if v == "" {
+				out = filepath.Join(scratch, "crs-toolchain-noversion")
+			}
 			if o, err := run(repoDir(), goEnv(), "go", "build", "-tags", "verif", "-ldflags", "-X main.version="+v, "-o", out, "."); err != nil {
 				fmt.Printf("ERROR cannot build %s: %v\n%s\n", repoDir(), err, o)
 				cleanupAndExit(exitInfra)
